@@ -448,6 +448,8 @@ def check(rep, F, tier, replay=None):
     rep.floor("converter functions inspected", 60, n_fn)
     from ruleutil import int_range_rule
     int_range_rule(rep, F)
+    from ruleutil import json_filter_rule
+    json_filter_rule(rep, F)
     return rep.finish(
         EXPLANATION,
         ["serde derive output is a faithful field-by-field form", "the registered inverse pairs are inverse functions (their own round trips are C01/C11/C14 clauses)"],
